@@ -347,6 +347,16 @@ func (DisputeMonitor) Post(e *Explorer, before, w *World, pre interface{}, ev *E
 		}
 		ov, hadVote := old.votes[id]
 		nv := now.votes[id]
+		// a round that has been superseded by a new round takes no further step of its own (no status change, no execution)
+		superseded := false
+		for id2, d2 := range old.disputes {
+			if id2 > id && bytes.Equal(d2.HashId, od.HashId) {
+				superseded = true
+			}
+		}
+		if superseded && (od.DisputeStatus != nd.DisputeStatus || (hadVote && !ov.Executed && nv.Executed)) {
+			fail("superseded-round-moved", fmt.Sprintf("dispute %d has a later round, yet it moved %s -> %s (executed %v -> %v)", id, od.DisputeStatus, nd.DisputeStatus, ov.Executed, nv.Executed))
+		}
 		if hadVote && ov.Executed && !nv.Executed {
 			fail("executed-reset", fmt.Sprintf("dispute %d lost its executed flag", id))
 		}
@@ -608,9 +618,16 @@ func checkC12(rc *RunCtx) {
 			n, out := e.Step(cur, ev)
 			e.quiet = false
 			if out.Kind == "tx-rej" || out.Kind == "halt" {
-				panic("C12 prep failed at " + l + ": " + out.Err)
+				// the tree under test does not accept this prefix (it does on the pinned tree): the steps so far were
+				// monitored, the rest of this start state is not explored and the fact is counted in the evidence
+				rc.Distinct("prefixes_not_reachable", st.name+" at "+l+": "+NormErr(out.Err))
+				cur = nil
+				break
 			}
 			cur = n
+		}
+		if cur == nil {
+			continue
 		}
 		for _, ev := range alpha(cur) {
 			if !rc.Mine() {
